@@ -30,6 +30,8 @@ ASSUMPTIONS = [
     "leading blanks before a statement are a syntax error in the grammar and are not generated",
 ]
 BUDGET = {"quick": 350, "thorough": 7000}
+# coverage-guided twins (thorough tier): part name -> executions per shard; see core.cover
+COVER = {"mirror": 3000}
 
 ROOTS = ["ns", "ns", "bytes_util", "int8lib", "booleans", "voidspace"]
 
